@@ -27,7 +27,8 @@ def small_doc(rng, version, nlines):
             d = G.gen_gfa2(rng, nseg=rng.randint(1, 3), nedges=rng.randint(0, 3), ngaps=rng.choice([0, 1]),
                            nfrags=rng.choice([0, 0, 1]), nog=rng.choice([0, 1, 2]), nug=rng.choice([0, 1]),
                            ncustom=rng.choice([0, 0, 1]), header=rng.random() < 0.3, comments=False,
-                           tags=rng.random() < 0.3, gaps_in_sets=False)
+                           tags=rng.random() < 0.3, gaps_in_sets=rng.random() < 0.3,
+                           gaps_in_paths=rng.random() < 0.3)
         lines = d.lines()
         if 3 <= len(lines) <= nlines:
             return lines
